@@ -442,6 +442,7 @@ func rulePosStamp(c *Ctx, r *R) {
 		r.ok("no-early-return", fmt.Sprintf("%d cases, none returns before the stamping loop", len(cs.Cases)))
 	}
 	// the stamping loop after the switch
+	stampFrom := ""
 	good := false
 	after := false
 	for _, s := range cs.Fn.Body.List {
@@ -467,10 +468,33 @@ func rulePosStamp(c *Ctx, r *R) {
 					if strings.Contains(src, ".Pos.Line") && strings.Contains(src, ".Pos.Filename") {
 						good = true
 					}
+					// the position must be the one of the node this call of compile was given (its
+					// parameter), not of a mutable field: nested compile calls overwrite c.cur, which
+					// by now is the last descendant
+					var tokParam types.Object
+					if ps := cs.Fn.Type.Params.List; len(ps) > 0 && len(ps[0].Names) > 0 {
+						tokParam = c.Info.Defs[ps[0].Names[0]]
+					}
+					for _, a := range call.Args {
+						sel, ok := unparen(a).(*ast.SelectorExpr)
+						if !ok {
+							continue
+						}
+						// X.Pos.Line / X.Pos.Filename / X.Pos.Column
+						if inner, ok := unparen(sel.X).(*ast.SelectorExpr); ok && inner.Sel.Name == "Pos" {
+							root := rootIdent(inner.X)
+							if root == nil || c.Obj(root) != tokParam || nosp(c.Src(inner.X)) != root.Name {
+								stampFrom = nosp(c.Src(inner.X))
+							}
+						}
+					}
 				}
 			}
 			return true
 		})
+	}
+	if good {
+		r.check(stampFrom == "", "stamp-node", c.Pos(cs.Fn), "instructions are stamped with the position of the node being compiled", "compile stamps the instructions it created with the position of "+stampFrom+" instead of its own node parameter: nested compile calls have moved that on to the last descendant, so in a multi-line expression (a fluent call chain, `a /` newline `b`) the failing instruction and the backtrace entries carry the line of another token")
 	}
 	r.check(good, "stamp-loop", c.Pos(cs.Fn), "after the switch every un-positioned instruction gets the node's file/function/line", "compile no longer stamps un-positioned instructions with the current node's position after the switch")
 }
@@ -517,7 +541,59 @@ func rulePosFused(c *Ctx, r *R) {
 	}
 }
 
+// btOwnerRule (part of BT-ORDER): the error report is built from the frame and backtrace of
+// the VM that ran the failing code.  Func and run create a fresh VM for the call; their
+// recover handler must ask *that* VM for the report, not the receiver (whose frame is empty).
+func btOwnerRule(c *Ctx, r *R) {
+	n := 0
+	for _, name := range c.FuncNames() {
+		fd := c.Func(name)
+		if fd.Body == nil {
+			continue
+		}
+		var execOn, btOn []*ast.Ident
+		ast.Inspect(fd.Body, func(nd ast.Node) bool {
+			call, ok := nd.(*ast.CallExpr)
+			if !ok {
+				return true
+			}
+			sel, ok := unparen(call.Fun).(*ast.SelectorExpr)
+			if !ok {
+				return true
+			}
+			id, ok := unparen(sel.X).(*ast.Ident)
+			if !ok {
+				return true
+			}
+			switch c.CalleeName(call) {
+			case "VM.exec":
+				execOn = append(execOn, id)
+			case "VM.btErr":
+				btOn = append(btOn, id)
+			}
+			return true
+		})
+		if len(execOn) == 0 || len(btOn) == 0 {
+			continue
+		}
+		for _, b := range btOn {
+			n++
+			same := false
+			for _, e := range execOn {
+				if c.Obj(e) == c.Obj(b) {
+					same = true
+				}
+			}
+			r.check(same, "report owner "+name, c.Pos(b), "btErr is asked of the VM that ran exec", name+" runs the code on "+execOn[0].Name+" but builds the error report from "+b.Name+", whose frame and backtrace are empty: a failing script function called through Call/Func (an event handler, a sort callback) is reported with the bare message — no function, no line, no call chain")
+		}
+	}
+	if n == 0 {
+		r.undecided("report owner", "-", "no function both runs exec and builds a report in its recover handler")
+	}
+}
+
 func ruleBtOrder(c *Ctx, r *R) {
+	btOwnerRule(c, r)
 	fd := c.Func("VM.btErr")
 	if fd == nil {
 		r.undecided("btErr", "-", "not found")
@@ -920,6 +996,49 @@ func ruleLoadKahn(c *Ctx, r *R) {
 			return true
 		})
 		r.check(!early, "K0", c.Pos(scan), "all top-level tokens are scanned for imports", "the import scan of loadImports stops before the end of the package's tokens: an import that follows another statement (as in an Eval snippet, which is not sorted) is never loaded")
+	}
+	// K1b: no import is skipped: a continue/break in front of the push is acceptable only
+	// when it is keyed by the very path that would be pushed (a harmless de-duplication)
+	if pushed != "" {
+		var pushStmt ast.Node
+		ast.Inspect(first.Body, func(n ast.Node) bool {
+			if as, ok := n.(*ast.AssignStmt); ok && len(as.Lhs) == 1 && c.Src(as.Lhs[0]) == "todo" {
+				pushStmt = as
+			}
+			return true
+		})
+		var loop ast.Node
+		for p := c.Parent(pushStmt); p != nil && p != ast.Node(first); p = c.Parent(p) {
+			switch p.(type) {
+			case *ast.ForStmt, *ast.RangeStmt:
+				if loop == nil {
+					loop = p
+				}
+			}
+		}
+		if loop != nil && pushStmt != nil {
+			skipped := ""
+			ast.Inspect(loop, func(n ast.Node) bool {
+				if _, ok := n.(*ast.FuncLit); ok {
+					return false
+				}
+				br, ok := n.(*ast.BranchStmt)
+				if !ok || br.Pos() > pushStmt.Pos() || (br.Tok != token.CONTINUE && br.Tok != token.BREAK) {
+					return true
+				}
+				keyed := false
+				for p := c.Parent(br); p != nil && p != loop; p = c.Parent(p) {
+					if ifs, ok := p.(*ast.IfStmt); ok && strings.Contains(nosp(c.Src(ifs.Cond)), pushed) {
+						keyed = true
+					}
+				}
+				if !keyed && skipped == "" {
+					skipped = c.Pos(br)
+				}
+				return true
+			})
+			r.check(skipped == "", "K1 every import", c.Pos(loop), "no import is skipped before it is pushed and recorded", "the import loop of loadImports can skip an import (at "+skipped+") on a condition that is not about the import's path: two imports that share a local name (two blank imports, or \"left/util\" and \"right/util\" in two files) collapse to one, and the second package is never loaded or initialised")
+		}
 	}
 	r.check(pushed != "" && pushed == recorded, "K1", c.Pos(first), "the same import path is pushed on the worklist and recorded as a dependency ("+pushed+")",
 		fmt.Sprintf("loadImports pushes %q on the worklist but records %q in the dependency set: a dependency is loaded without being ordered before its importer (or vice versa)", pushed, recorded))
